@@ -22,6 +22,7 @@ def run(c):
     r4(c)
     r5(c)
     r6(c)
+    r7(c)
 
 
 def _is_put(node, qname):
@@ -331,3 +332,28 @@ def r6(c):
     ok = not rr["fall"]
     c.check("C12.R6", ok, repo.loc(m, ir), "invoke_retry/returns-or-raises", "some path through invoke_retry falls off the end (returns None): a task that keeps failing with a connection error is "
             "reported as a success with result None instead of a failure", key_text="falls-off")
+
+
+def r7(c):
+    repo = c.repo
+    c.rule("C12.R7", "a failure travels through the result queue as plain data: PickleSafeException.from_exc builds its result from the class, str(), the device id and the formatted "
+                     "traceback of the original exception and keeps no reference to the exception object itself (neither as a constructor argument nor as an attribute) — the "
+                     "instance __dict__ is pickled with it, and an exception that does not survive pickling makes the worker's queue feeder drop the result or the parent's "
+                     "get() raise")
+    m = repo.module(MOD)
+    fn = repo.func(MOD, "PickleSafeException.from_exc", canon=False)
+    c.count("functions")
+    ps = [a.arg for a in fn.args.args]
+    if len(ps) < 2:
+        raise AnchorError("PickleSafeException.from_exc: parameters not found")
+    exc = ps[1]
+    bad = None
+    for n in walk_no_nested(fn):
+        if isinstance(n, ast.Assign) and isinstance(n.targets[0], ast.Attribute) and isinstance(n.value, ast.Name) and n.value.id == exc:
+            bad = n
+        if isinstance(n, ast.Call) and call_name(n).split(".")[-1] in ("PickleSafeException", "cls") and any(isinstance(a, ast.Name) and a.id == exc for a in list(n.args) + [k.value for k in n.keywords]):
+            bad = n
+        if isinstance(n, ast.Call) and call_name(n) == "setattr" and len(n.args) == 3 and isinstance(n.args[2], ast.Name) and n.args[2].id == exc:
+            bad = n
+    c.check("C12.R7", bad is None, repo.loc(m, bad if bad is not None else fn), "PickleSafeException.from_exc/plain-data", f"`{norm(bad)[:60] if bad is not None else ''}` keeps the original exception "
+            "object on the pickled instance", key_text="orig-exc-kept")
